@@ -70,6 +70,35 @@ pub fn configs(tier: Tier) -> Vec<String> {
 
 pub fn scenarios(cfg: &str) -> Vec<Vec<Ev>> {
     let e = Ev::new;
+    let mut v = vec![];
+    // deep queues: n followers asleep at the latest id, interior ones cancelled, the next send (or close) reaches the rest
+    for (n, cancel, newest_first) in crate::hist::deep_queue_patterns(&[5, 6, 8]) {
+        for close in [false, true] {
+            let mut s = vec![e(SEND, 0, 0), e(TRY_RECV, 0, 0)];
+            for i in 0..n {
+                s.push(e(CREATE, i, 1));
+                s.push(e(POLL, i, (i % 2) as u8));
+            }
+            for c in &cancel {
+                s.push(e(DROP_FUT, *c, 0));
+            }
+            s.push(if close { e(CLOSE, 0, 0) } else { e(SEND, 0, 0) });
+            let mut rest = crate::hist::deep_rest(n, &cancel);
+            if newest_first {
+                rest.reverse();
+            }
+            for i in rest {
+                s.push(e(POLL, i, 1));
+            }
+            v.push(s);
+        }
+    }
+    v.extend(base_scenarios(cfg));
+    v
+}
+
+fn base_scenarios(cfg: &str) -> Vec<Vec<Ev>> {
+    let e = Ev::new;
     let mut v = vec![
         // follower asleep at id == latest, next send wakes it, waker swap in between
         vec![e(SEND, 0, 0), e(TRY_RECV, 0, 0), e(CREATE, 0, 1), e(POLL, 0, 0), e(POLL, 0, 1), e(SEND, 0, 0), e(POLL, 0, 0), e(CREATE, 1, 1), e(POLL, 1, 0), e(CREATE, 2, 2), e(POLL, 2, 0)],
